@@ -525,6 +525,14 @@ class CEval(object):
         d, k = self.ev(n.args[0]), self.ev(n.args[1])
         return SV(TBool, self.ex.dict_has(self.st, d, k))
 
+    def i_dict_map(self, n):
+        # the content of a dict as a value: Map[K, Opt[V]] (None for a missing key) -- lets spec functions take the content of a dict
+        d = self.ev(n.args[0])
+        if d.pt.kind not in ('dict', 'ddict') or d.pt.args[1].is_ref():
+            raise OutOfSubset('dict_map of %r' % (d.pt,))
+        mname, kname, m, korder, opt = self.ex._dict_arrs(self.st, d)
+        return SV(PT('map', d.pt.args[0], opt), Select(m, d.t))
+
     def i_keys(self, n):
         d = self.ev(n.args[0])
         return SV(TSeq(d.pt.args[0]), self.ex.dict_keys(self.st, d))
